@@ -487,7 +487,7 @@ func (p c02) leafrefs(c *core.Ctx, idx int) {
 	r := c.Rand
 	targets := []struct{ typ, format string }{{"type int32;", "int32"}, {"type string;", "string"}, {"type tt;", "uint16"}, {"type enumeration { enum a; }", "enumeration"}, {"type boolean;", "boolean"}}
 	t := targets[r.Intn(len(targets))]
-	variant := r.Intn(10)
+	variant := r.Intn(14)
 	var body, extra string
 	mods := map[string]string{}
 	nExp := 1
@@ -513,6 +513,18 @@ func (p c02) leafrefs(c *core.Ctx, idx int) {
 		body = fmt.Sprintf("  container c { leaf tgt { %s } container d { choice ch { leaf x { type leafref { path \"../../tgt\"; } } } } }\n", t.typ)
 	case 9: // one grouping, two places, the path leads to leaves of different types
 		body = "  grouping g { container i { leaf x { type leafref { path \"../../tgt\"; } } } }\n" +
+			"  container c0 { leaf tgt { type int32; } uses g; }\n  container c1 { leaf tgt { type string; } uses g; }\n"
+		nExp = 2
+	case 10: // from a case of a choice that is in a case of another choice, to a sibling of the outer choice
+		body = fmt.Sprintf("  container c { leaf tgt { %s } choice ch { case one { choice inner { case i1 { leaf x { type leafref { path \"../tgt\"; } } } case i2 { leaf o2 { type string; } } } } case two { leaf o3 { type string; } } } }\n", t.typ)
+	case 11: // the same with shorthand cases and three choice levels, a leaf-list through a typedef
+		extra = "  typedef lr { type leafref { path \"../tgt\"; } }\n"
+		body = fmt.Sprintf("  container c { choice ch { choice mid { choice inner { leaf-list x { type lr; } } } } leaf tgt { %s } }\n", t.typ)
+	case 12: // two levels up, the inner level through two choices
+		body = fmt.Sprintf("  container c { leaf tgt { %s } container d { choice ch { case one { choice inner { leaf x { type leafref { path \"../../tgt\"; } } } } } } }\n", t.typ)
+	case 13: // a typedef'd leafref in a grouping: the path is the typedef's, where it leads depends on the use
+		extra = "  typedef lr { type leafref { path \"../tgt\"; } }\n"
+		body = "  grouping g { leaf x { type lr; } }\n" +
 			"  container c0 { leaf tgt { type int32; } uses g; }\n  container c1 { leaf tgt { type string; } uses g; }\n"
 		nExp = 2
 	case 5: // into an imported module
@@ -543,7 +555,7 @@ func (p c02) leafrefs(c *core.Ctx, idx int) {
 	if c.Guard("load", func() { m, err = c02load(mods) }) {
 		return
 	}
-	vname := []string{"relative", "forward", "absolute-into-list", "leafref-to-leafref", "typedef-in-grouping-x2", "imported-module", "out-of-a-case", "inside-nested-choice", "two-up-from-a-case", "grouping-used-at-two-target-types"}[variant]
+	vname := []string{"relative", "forward", "absolute-into-list", "leafref-to-leafref", "typedef-in-grouping-x2", "imported-module", "out-of-a-case", "inside-nested-choice", "two-up-from-a-case", "grouping-used-at-two-target-types", "out-of-two-choice-levels", "out-of-three-shorthand-levels", "two-up-thru-two-choices", "typedef-leafref-at-two-target-types"}[variant]
 	if err != nil {
 		c.Violate("leafref/load-error/"+vname, "%v\n%s", err, all)
 		return
@@ -553,7 +565,10 @@ func (p c02) leafrefs(c *core.Ctx, idx int) {
 		// x -> mid -> tgt: resolving once gives the leafref mid; its own resolution gives the target
 		want.resolved = "leafref"
 	}
-	if variant == 9 {
+	if variant == 11 {
+		want.format = "leafref-list" // Resolve() gives the type of the target leaf
+	}
+	if variant == 9 || variant == 13 {
 		// per expansion
 		ld := leafDumps(m, name)
 		if len(ld) != 2 {
